@@ -103,7 +103,7 @@ func ruleSetMethods(c *Ctx) {
 			fill := false
 			var direct []SymEffect
 			for _, ef := range tapeStores {
-				if strings.HasPrefix(ef.Val.String(), "(5620492334958379008|") {
+				if isNopAff(ef.Val) {
 					fill = true // NOP fill loop store (payload checked by C14.writers)
 					continue
 				}
